@@ -32,14 +32,24 @@ const (
 type NegCase struct {
 	IdealOpener int64 `json:"ideal_opener"` // ideal fee (sat) of the channel opener, who pays and makes the first offer
 	IdealOther  int64 `json:"ideal_other"`
-	CapOpener   int   `json:"cap_opener"` // 1: MaxFee = ideal; 3: lnd's default 3x ideal
-	CapOther    int   `json:"cap_other"`  // the multiplier under which the opener's ideal lies within the other's cap (not enforced by lnd for the non-payer)
-	Closer      int   `json:"closer"`     // who sends shutdown first
+	// CapOpener: 1: MaxFee = own ideal; 3: lnd's default 3x ideal; 0: MaxFee is
+	// exactly the other side's (higher) ideal fee, the smallest cap under which the
+	// other's ideal still lies within the opener's cap.
+	CapOpener int `json:"cap_opener"`
+	CapOther  int `json:"cap_other"` // the multiplier under which the opener's ideal lies within the other's cap (not enforced by lnd for the non-payer)
+	Closer    int `json:"closer"`    // who sends shutdown first; 2 = both at the same time
 	// EarlyOffer: the opener's first closing_signed is delivered before the other
 	// side has called BeginNegotiation (lnd caches it).
 	EarlyOffer bool   `json:"early_offer"`
 	SA         string `json:"script_a"`
 	SB         string `json:"script_b"`
+	// Estimator: "" = identity (ideal values are absolute fees); "simple" = lnd's
+	// own chancloser.SimpleCoopFeeEstimator, the ideal values are sat/kw rates.
+	Estimator string `json:"estimator,omitempty"`
+	// Upfront: both channels carry upfront shutdown scripts equal to the delivery scripts.
+	Upfront bool `json:"upfront,omitempty"`
+	// Height: the negotiation height handed to NewChanCloser (0 = negHeight).
+	Height uint32 `json:"height,omitempty"`
 }
 
 // identityEstimator makes "fee rate" and "absolute fee" the same number, so
@@ -87,37 +97,79 @@ func runNeg(p *pair, c NegCase, tr tracer, h *harness) verdict {
 			Quit:           make(chan struct{}),
 			FeeEstimator:   identityEstimator{},
 		}
+		if c.Estimator == "simple" {
+			cfg.FeeEstimator = &chancloser.SimpleCoopFeeEstimator{}
+		}
 		if p.ct.IsTaproot() {
 			cfg.MusigSession = peer.NewMusigChanCloser(p.ch[i])
 		}
-		if i == op && c.CapOpener == 1 {
-			cfg.MaxFee = chainfee.SatPerKWeight(c.IdealOpener)
+		if i == op {
+			switch c.CapOpener {
+			case 1:
+				cfg.MaxFee = chainfee.SatPerKWeight(c.IdealOpener)
+			case 0:
+				cfg.MaxFee = chainfee.SatPerKWeight(c.IdealOther)
+			}
 		}
 		who := lntypes.Remote
-		if i == c.Closer {
+		if i == c.Closer || c.Closer == 2 {
 			who = lntypes.Local
 		}
+		height := uint32(negHeight)
+		if c.Height != 0 {
+			height = c.Height
+		}
 		cc[i] = chancloser.NewChanCloser(cfg, chancloser.DeliveryAddrWithKey{DeliveryAddress: scripts[i]},
-			chainfee.SatPerKWeight(ideal[i]), negHeight, nil, who)
+			chainfee.SatPerKWeight(ideal[i]), height, nil, who)
+	}
+	if c.Upfront {
+		// what the funding flow would have stored on both sides
+		for i := 0; i < 2; i++ {
+			st := p.ch[i].State()
+			st.LocalShutdownScript, st.RemoteShutdownScript = scripts[i], scripts[1-i]
+		}
+		defer func() {
+			for i := 0; i < 2; i++ {
+				st := p.ch[i].State()
+				st.LocalShutdownScript, st.RemoteShutdownScript = nil, nil
+			}
+		}()
 	}
 	// shutdown exchange
-	s := c.Closer
-	sd, err := cc[s].ShutdownChan()
-	if err != nil {
-		return fail("shutdown-error", "%s.ShutdownChan: %v", partyName(s), err)
-	}
-	tr.log("%s -> shutdown(script %x)", partyName(s), sd.Address)
-	resp, err := cc[1-s].ReceiveShutdown(*sd)
-	if err != nil {
-		return fail("shutdown-error", "%s.ReceiveShutdown: %v", partyName(1-s), err)
-	}
-	if resp.IsNone() {
-		return fail("shutdown-error", "%s did not answer shutdown", partyName(1-s))
-	}
-	sd2 := resp.UnsafeFromSome()
-	tr.log("%s -> shutdown(script %x)", partyName(1-s), sd2.Address)
-	if r2, err := cc[s].ReceiveShutdown(sd2); err != nil || r2.IsSome() {
-		return fail("shutdown-error", "%s.ReceiveShutdown(reply): err=%v extra=%v", partyName(s), err, r2.IsSome())
+	if c.Closer == 2 {
+		var sds [2]*lnwire.Shutdown
+		for i := 0; i < 2; i++ {
+			sd, err := cc[i].ShutdownChan()
+			if err != nil {
+				return fail("shutdown-error", "%s.ShutdownChan: %v", partyName(i), err)
+			}
+			tr.log("%s -> shutdown(script %x)", partyName(i), sd.Address)
+			sds[i] = sd
+		}
+		for i := 0; i < 2; i++ {
+			if r2, err := cc[i].ReceiveShutdown(*sds[1-i]); err != nil || r2.IsSome() {
+				return fail("shutdown-error", "%s.ReceiveShutdown(crossed): err=%v extra=%v", partyName(i), err, r2.IsSome())
+			}
+		}
+	} else {
+		s := c.Closer
+		sd, err := cc[s].ShutdownChan()
+		if err != nil {
+			return fail("shutdown-error", "%s.ShutdownChan: %v", partyName(s), err)
+		}
+		tr.log("%s -> shutdown(script %x)", partyName(s), sd.Address)
+		resp, err := cc[1-s].ReceiveShutdown(*sd)
+		if err != nil {
+			return fail("shutdown-error", "%s.ReceiveShutdown: %v", partyName(1-s), err)
+		}
+		if resp.IsNone() {
+			return fail("shutdown-error", "%s did not answer shutdown", partyName(1-s))
+		}
+		sd2 := resp.UnsafeFromSome()
+		tr.log("%s -> shutdown(script %x)", partyName(1-s), sd2.Address)
+		if r2, err := cc[s].ReceiveShutdown(sd2); err != nil || r2.IsSome() {
+			return fail("shutdown-error", "%s.ReceiveShutdown(reply): err=%v extra=%v", partyName(s), err, r2.IsSome())
+		}
 	}
 
 	// negotiation
@@ -238,15 +290,28 @@ func runNeg(p *pair, c NegCase, tr tracer, h *harness) verdict {
 		rel = "gt"
 	}
 	who := "opener"
-	switch fee {
-	case c.IdealOpener:
-	case c.IdealOther:
+	switch {
+	case c.Estimator != "":
+		who = "est-" + c.Estimator // ideal values are rates, the agreed fee is not comparable with them
+	case fee == c.IdealOpener:
+	case fee == c.IdealOther:
 		who = "other"
 	default:
 		who = "compromise"
 	}
-	v.class = fmt.Sprintf("agreed:%s", who)
-	v.cell = fmt.Sprintf("legacy|%s|open%s|closer%s|early%v|cap%d|%s|msgs%d|%s", p.typName, partyName(op), partyName(c.Closer), c.EarlyOffer, c.CapOpener, rel, msgs, who)
+	closer := "both"
+	if c.Closer < 2 {
+		closer = partyName(c.Closer)
+	}
+	flags := ""
+	if c.Upfront {
+		flags += "u"
+	}
+	if c.Height != 0 {
+		flags += "h"
+	}
+	v.class = fmt.Sprintf("agreed:%s:%s", who, ref.shape())
+	v.cell = fmt.Sprintf("legacy|%s|open%s|closer%s|early%v|cap%d|%s|%s|%s|msgs%d|%s", p.typName, partyName(op), closer, c.EarlyOffer, c.CapOpener, flags, ref.shape(), rel, msgs, who)
 	return v
 }
 
